@@ -208,3 +208,158 @@ Definition file_site_ok (s : file_site) : bool :=
 
 (* a use of an ambient input (clock, global random source, environment) *)
 Record ambient_site := mk_ambient { aname : string; aallowed : bool }.
+
+(* ---------------------------------------------------------------- paths of generated files *)
+
+(* Where gen files land is computed by codegen.SnakeCase (directory of a service) and
+   filepath.Join(codegen.Gendir, ...). Strings are lists of byte values; the definitions
+   below mirror the Go code for ASCII input (SnakeCase walks its argument byte by byte). *)
+Definition bytes := list N.
+
+Definition is_upper (b : N) : bool := (65 <=? b)%N && (b <=? 90)%N.
+Definition is_lower (b : N) : bool := (97 <=? b)%N && (b <=? 122)%N.
+Definition is_digit (b : N) : bool := (48 <=? b)%N && (b <=? 57)%N.
+Definition to_lower (b : N) : N := if is_upper b then (b + 32)%N else b.
+(* strings.Fields on ASCII: space, \t \n \v \f \r *)
+Definition is_space (b : N) : bool := (b =? 32)%N || ((9 <=? b)%N && (b <=? 13)%N).
+
+Fixpoint bytes_eqb (a b : bytes) : bool :=
+  match a, b with
+  | [], [] => true
+  | x :: a', y :: b' => (x =? y)%N && bytes_eqb a' b'
+  | _, _ => false
+  end.
+
+Fixpoint is_prefix (p s : bytes) : bool :=
+  match p, s with
+  | [], _ => true
+  | x :: p', y :: s' => (x =? y)%N && is_prefix p' s'
+  | _ :: _, [] => false
+  end.
+
+(* strings.ReplaceAll old new (old non-empty): leftmost non-overlapping occurrences.
+   skip = bytes of the current occurrence still to be dropped *)
+Fixpoint replace_all_from (skip : nat) (old new s : bytes) : bytes :=
+  match s with
+  | [] => []
+  | c :: r =>
+      match skip with
+      | S k => replace_all_from k old new r
+      | O => if is_prefix old s then new ++ replace_all_from (List.length old - 1) old new r
+             else c :: replace_all_from 0 old new r
+      end
+  end.
+Definition replace_all (old new s : bytes) : bytes := replace_all_from 0 old new s.
+
+(* strings.Fields *)
+Fixpoint fields_from (cur : bytes) (s : bytes) : list bytes :=
+  match s with
+  | [] => match cur with [] => [] | _ => [rev cur] end
+  | c :: r =>
+      if is_space c then match cur with [] => fields_from [] r | _ => rev cur :: fields_from [] r end
+      else fields_from (c :: cur) r
+  end.
+Definition fields (s : bytes) : list bytes := fields_from [] s.
+
+Fixpoint join_with (sep : bytes) (ws : list bytes) : bytes :=
+  match ws with
+  | [] => []
+  | [w] => w
+  | w :: r => w ++ sep ++ join_with sep r
+  end.
+
+(* the loop of codegen.SnakeCase from the second byte on *)
+Fixpoint snake_loop (lastLower lastUnder : bool) (s : bytes) : bytes :=
+  match s with
+  | [] => []
+  | r :: rest =>
+      let isLower := is_lower r || is_digit r in
+      let isUnder := (r =? 95)%N in
+      let sep :=
+        if negb isLower && negb isUnder then
+          if lastLower && negb lastUnder then true
+          else match rest with
+               | rn :: _ => is_lower rn && negb (rn =? 95)%N && negb lastUnder
+               | [] => false
+               end
+        else false in
+      (if sep then [95%N] else []) ++ to_lower r :: snake_loop isLower isUnder rest
+  end.
+
+Definition oauth_upper : bytes := [79; 65; 117; 116; 104]%N.   (* "OAuth" *)
+Definition oauth_lower : bytes := [111; 97; 117; 116; 104]%N.  (* "oauth" *)
+
+Definition snake_case (name : bytes) : bytes :=
+  let s := replace_all [45%N] [95%N] (join_with [95%N] (fields (replace_all oauth_upper oauth_lower name))) in
+  match s with
+  | [] => []
+  | n :: rest => to_lower n :: snake_loop false false rest
+  end.
+
+(* what may appear in a name handed to SnakeCase / what comes out *)
+Definition name_byte (b : N) : bool :=
+  is_upper b || is_lower b || is_digit b || (b =? 95)%N || (b =? 45)%N || is_space b.
+Definition dir_byte (b : N) : bool := is_lower b || is_digit b || (b =? 95)%N.
+
+(* filepath.Join on slash-separated relative paths: drop empty elements, join with "/",
+   then path.Clean: no empty and "." components, ".." removes the component before it *)
+Fixpoint split_slash_from (cur : bytes) (s : bytes) : list bytes :=
+  match s with
+  | [] => [rev cur]
+  | c :: r => if (c =? 47)%N then rev cur :: split_slash_from [] r else split_slash_from (c :: cur) r
+  end.
+Definition split_slash (s : bytes) : list bytes := split_slash_from [] s.
+
+Definition dot : bytes := [46%N].
+Definition dotdot : bytes := [46; 46]%N.
+
+(* the stack holds the cleaned components, innermost first *)
+Fixpoint clean_push (stack : list bytes) (cs : list bytes) : list bytes :=
+  match cs with
+  | [] => stack
+  | c :: r =>
+      if bytes_eqb c [] || bytes_eqb c dot then clean_push stack r
+      else if bytes_eqb c dotdot then
+        match stack with
+        | top :: below => if bytes_eqb top dotdot then clean_push (c :: stack) r else clean_push below r
+        | [] => clean_push [c] r
+        end
+      else clean_push (c :: stack) r
+  end.
+
+Definition join_clean (elems : list bytes) : list bytes :=
+  rev (clean_push [] (flat_map split_slash (filter (fun e => negb (bytes_eqb e [])) elems))).
+
+Definition gen_name : bytes := [103; 101; 110]%N.  (* "gen" *)
+
+Definition in_gen_subdir_b (p : list bytes) : bool :=
+  match p with
+  | g :: _ :: _ :: _ => bytes_eqb g gen_name
+  | _ => false
+  end.
+
+(* the argument list of a filepath.Join(...) that computes the Path of a gen file *)
+Inductive pcomp :=
+| PGendir                 (* codegen.Gendir *)
+| PLit (s : bytes)        (* a string literal *)
+| PSvc                    (* a SnakeCase result: <service>.PathName, codegen.SnakeCase(...) *)
+| POther.                 (* anything else *)
+
+Definition safe_component (c : bytes) : bool :=
+  negb (bytes_eqb c []) && negb (bytes_eqb c dot) && negb (bytes_eqb c dotdot) && forallb (fun b => negb (b =? 47)%N) c.
+
+Definition comp_ok (c : pcomp) : bool :=
+  match c with PLit s => safe_component s | PSvc => true | _ => false end.
+
+Definition shape_ok (sh : list pcomp) : bool :=
+  match sh with
+  | PGendir :: c1 :: c2 :: rest => forallb comp_ok (c1 :: c2 :: rest)
+  | _ => false
+  end.
+
+(* one service name for every PSvc slot is enough: what matters is that it is safe *)
+Definition inst (svc : bytes) (sh : list pcomp) : list bytes :=
+  map (fun c => match c with PGendir => gen_name | PLit s => s | PSvc => svc | POther => [] end) sh.
+
+Record path_site := mk_path_site { psname : string; pshape : list pcomp; pinspected : bool }.
+Definition path_site_ok (s : path_site) : bool := shape_ok (pshape s) || pinspected s.
